@@ -92,7 +92,7 @@ def convert(abbr: TokenGroup, params={}):
 
     if text is not None and not state._text_inserted:
         # Text given but no implicitly repeated elements: insert it into deepest child
-        deepest = deepest_node(result.children[-1])
+        deepest = deepest_node(result.children[-1]) if result.children else None
         if deepest:
             tx = '\n'.join(text).strip() if isinstance(text, list) else text.strip() or ''
             insert_text(deepest, tx)
